@@ -28,60 +28,7 @@ func runC07(p *core.Prog, r *core.Report) {
 	}
 	// ---- R1 put path
 	r1 := r.Rule("C07.R1", "handleObjectWithAssociation: garbage marks and the tombstone counter only after objectLocked(target)==false and target is not a LOCK; lock counter only after status != tombstoned and, for an expired target (whose status hides the tombstone), no tombstone of its own", 6)
-	hfn := p.Func(mb + "handleObjectWithAssociation")
-	if hfn == nil {
-		r.Fatalf("C07.R1: handleObjectWithAssociation not found")
-		return
-	}
-	fetch := func(s core.Site) bool { return s.Name == mb+"fetchTypeForID" }
-	guards := []core.Guard{
-		core.G("target-not-locked", core.IsFalse, mb+"objectLocked"),
-		{Name: "target-type-unknown", Match: fetch, Comps: []core.Comp{{Result: 1, Kind: core.NonNil}}},
-		{Name: "target-type-not-lock", Match: fetch, Comps: []core.Comp{{Result: 0, Kind: core.NeConst, Const: tLock}}},
-		{Name: "target-not-tombstoned", Match: func(s core.Site) bool { return s.Name == mb+"objectStatus" }, Comps: []core.Comp{{Result: -1, Kind: core.NeConst, Const: stTomb}}},
-	}
-	stExp, okE := p.ConstInt(mb + "statusExpired")
-	if !okE {
-		r.Fatalf("C07.R1: statusExpired not found")
-		return
-	}
-	guards = append(guards,
-		core.Guard{Name: "target-not-expired", Match: func(s core.Site) bool { return s.Name == mb+"objectStatus" }, Comps: []core.Comp{{Result: -1, Kind: core.NeConst, Const: stExp}}},
-		core.Guard{Name: "target-has-no-tombstone", Match: func(s core.Site) bool { return s.Name == mb+"inGarbage" }, Comps: []core.Comp{{Result: -1, Kind: core.NeConst, Const: stTomb}}},
-	)
-	der := []core.Derived{{Name: "target-is-not-a-lock", Alts: [][]string{{"target-type-unknown"}, {"target-type-not-lock"}}},
-		// the status of an expired object says 'expired' whether or not it also has a tombstone
-		{Name: "no-tombstone-hidden-by-expiry", Alts: [][]string{{"target-not-expired"}, {"target-has-no-tombstone"}}}}
-	storeField := func(in ssa.Instruction, field string) bool {
-		st, ok := in.(*ssa.Store)
-		if !ok {
-			return false
-		}
-		fa, ok := st.Addr.(*ssa.FieldAddr)
-		return ok && core.FieldAddrName(fa) == field
-	}
-	core.CheckEffectsFn(p, r1, hfn, core.EffectRule{Guards: guards, Derived: der, Min: 3, Effect: func(p *core.Prog, in ssa.Instruction) (string, bool) {
-		if c, ok := in.(ssa.CallInstruction); ok && core.CalleeName(c) == "(*github.com/nspcc-dev/bbolt.Bucket).Put" {
-			return "garbage-mark", true
-		}
-		if storeField(in, "("+mb+"CountersDiff).TS") {
-			return "diff.TS", true
-		}
-		if storeField(in, "("+mb+"CountersDiff).Lock") {
-			return "diff.Lock", true
-		}
-		return "", false
-	}, Need: func(desc string) []string {
-		if desc == "diff.Lock" {
-			return []string{"target-not-tombstoned", "no-tombstone-hidden-by-expiry"}
-		}
-		return []string{"target-not-locked", "target-is-not-a-lock"}
-	}})
-	// objectLocked in that function must be asked about the current epoch and the tombstone's target
-	for _, s := range core.CallSites([]*ssa.Function{hfn}, func(s core.Site) bool { return s.Name == mb+"objectLocked" }) {
-		a := s.Call.Common().Args
-		r1.Check(core.ParamIndex(hfn, a[0]) == 2, core.FuncName(hfn)+"#objectLocked#epoch-arg", p.InstrPos(s.Call), "lock liveness is judged at the put's current epoch", "objectLocked is not called with the function's currEpoch")
-	}
+	tombstoneRefusedWhileLocked(p, r, r1, tLock, stTomb)
 
 	// ---- R2 status + expiry iterator
 	r2 := r.Rule("C07.R2", "objectStatusDirect reports expired/garbage only where objectLocked was false; iterateExpired yields only where objectLocked was false", 4)
@@ -435,4 +382,63 @@ func lockCheckAsksEveryShard(p *core.Prog, r *core.Report, h *core.RuleH) {
 	if n == 0 {
 		h.Bad(name+"#no-lock-answer", p.Pos(fn.Pos()), "no 'not locked' return found")
 	}
+}
+
+// tombstoneRefusedWhileLocked: shared by C07.R1 and C08.R7.
+func tombstoneRefusedWhileLocked(p *core.Prog, r *core.Report, r1 *core.RuleH, tLock, stTomb int64) {
+	hfn := p.Func(mb + "handleObjectWithAssociation")
+	if hfn == nil {
+		r.Fatalf("%s: handleObjectWithAssociation not found", r1.ID())
+		return
+	}
+	fetch := func(s core.Site) bool { return s.Name == mb+"fetchTypeForID" }
+	guards := []core.Guard{
+		core.G("target-not-locked", core.IsFalse, mb+"objectLocked"),
+		{Name: "target-type-unknown", Match: fetch, Comps: []core.Comp{{Result: 1, Kind: core.NonNil}}},
+		{Name: "target-type-not-lock", Match: fetch, Comps: []core.Comp{{Result: 0, Kind: core.NeConst, Const: tLock}}},
+		{Name: "target-not-tombstoned", Match: func(s core.Site) bool { return s.Name == mb+"objectStatus" }, Comps: []core.Comp{{Result: -1, Kind: core.NeConst, Const: stTomb}}},
+	}
+	stExp, okE := p.ConstInt(mb + "statusExpired")
+	if !okE {
+		r.Fatalf("%s: statusExpired not found", r1.ID())
+		return
+	}
+	guards = append(guards,
+		core.Guard{Name: "target-not-expired", Match: func(s core.Site) bool { return s.Name == mb+"objectStatus" }, Comps: []core.Comp{{Result: -1, Kind: core.NeConst, Const: stExp}}},
+		core.Guard{Name: "target-has-no-tombstone", Match: func(s core.Site) bool { return s.Name == mb+"inGarbage" }, Comps: []core.Comp{{Result: -1, Kind: core.NeConst, Const: stTomb}}},
+	)
+	der := []core.Derived{{Name: "target-is-not-a-lock", Alts: [][]string{{"target-type-unknown"}, {"target-type-not-lock"}}},
+		// the status of an expired object says 'expired' whether or not it also has a tombstone
+		{Name: "no-tombstone-hidden-by-expiry", Alts: [][]string{{"target-not-expired"}, {"target-has-no-tombstone"}}}}
+	storeField := func(in ssa.Instruction, field string) bool {
+		st, ok := in.(*ssa.Store)
+		if !ok {
+			return false
+		}
+		fa, ok := st.Addr.(*ssa.FieldAddr)
+		return ok && core.FieldAddrName(fa) == field
+	}
+	core.CheckEffectsFn(p, r1, hfn, core.EffectRule{Guards: guards, Derived: der, Min: 3, Effect: func(p *core.Prog, in ssa.Instruction) (string, bool) {
+		if c, ok := in.(ssa.CallInstruction); ok && core.CalleeName(c) == "(*github.com/nspcc-dev/bbolt.Bucket).Put" {
+			return "garbage-mark", true
+		}
+		if storeField(in, "("+mb+"CountersDiff).TS") {
+			return "diff.TS", true
+		}
+		if storeField(in, "("+mb+"CountersDiff).Lock") {
+			return "diff.Lock", true
+		}
+		return "", false
+	}, Need: func(desc string) []string {
+		if desc == "diff.Lock" {
+			return []string{"target-not-tombstoned", "no-tombstone-hidden-by-expiry"}
+		}
+		return []string{"target-not-locked", "target-is-not-a-lock"}
+	}})
+	// objectLocked in that function must be asked about the current epoch and the tombstone's target
+	for _, s := range core.CallSites([]*ssa.Function{hfn}, func(s core.Site) bool { return s.Name == mb+"objectLocked" }) {
+		a := s.Call.Common().Args
+		r1.Check(core.ParamIndex(hfn, a[0]) == 2, core.FuncName(hfn)+"#objectLocked#epoch-arg", p.InstrPos(s.Call), "lock liveness is judged at the put's current epoch", "objectLocked is not called with the function's currEpoch")
+	}
+
 }
